@@ -444,6 +444,7 @@ func (g treeGen) decodeInput(typ string) any {
 type pairGen struct {
 	ctx   *core.Ctx
 	xkeys bool // use mapping keys that start with "x-" (recorded finding: taken as extensions in the mapping form)
+	sink  func(attr string, short, long map[string]any) // round 6: when set, pairs go here instead of c03.shortLong
 }
 
 func doc(svc map[string]any, top map[string]any) map[string]any {
@@ -520,6 +521,10 @@ func (g pairGen) kvs(allowNull bool) []kv {
 }
 
 func (g pairGen) emit(attr string, short, long map[string]any) {
+	if g.sink != nil {
+		g.sink(attr, short, long)
+		return
+	}
 	if g.xkeys {
 		if !strings.HasPrefix(attr, "kv:") {
 			return
@@ -779,18 +784,17 @@ func (g pairGen) one(i int) {
 		g.emit("string-vs-list:"+k, doc(svcWith(k, v), nil), doc(svcWith(k, []any{v}), nil))
 	case 15: // command / entrypoint: shell words
 		k := []string{"command", "entrypoint"}[r.Intn(2)]
-		words := [][]string{{"echo", "hello"}, {"sh", "-c", "a b"}, {"x"}, {"a", "", "b"}, {"it's"}, {"a\tb"}}[r.Intn(6)]
-		var l []any
-		var parts []string
-		for _, w := range words {
-			l = append(l, w)
-			if w == "" || strings.ContainsAny(w, " '\t") {
-				parts = append(parts, `"`+w+`"`)
-			} else {
-				parts = append(parts, w)
-			}
+		// a grammar-directed line (plain runs incl. Unicode white space outside the parser's blanks, quotes, escapes) vs its words
+		a := rndShAST(g.ctx, true)
+		if len(a.Words) == 0 {
+			a.Words = []shWordA{{Segs: []shSegA{{"plain", "x"}}}}
 		}
-		g.emit("shell:"+k, doc(svcWith(k, strings.Join(parts, " ")), nil), doc(svcWith(k, l), nil))
+		l := []any{}
+		for _, w := range a.long() {
+			l = append(l, w)
+		}
+		g.ctx.Count("pair-shell-shape:" + a.shape())
+		g.emit("shell:"+k, doc(svcWith(k, a.render()), nil), doc(svcWith(k, l), nil))
 	case 16: // KEY[=VALUE] list vs mapping (pointer-valued)
 		k := []string{"environment", "build.args"}[r.Intn(2)]
 		l := g.kvs(true)
@@ -1092,13 +1096,16 @@ func runC03(ctx *core.Ctx) {
 		ctx.Add("c03.decode", map[string]any{"type": typ, "v": core.EncodeVal(g.decodeInput(typ))})
 	}
 
+	// 5b. shell words (round 6)
+	shellStreams(ctx)
+
 	// 6. metamorphic oracle on whole loads: short document vs long document; near-miss documents
-	pg := pairGen{ctx, false}
+	pg := pairGen{ctx: ctx}
 	pg.nearMisses()
 	for i := 0; i < ctx.Pick(1200, 15000); i++ {
 		pg.one(i)
 	}
-	xg := pairGen{ctx, true}
+	xg := pairGen{ctx: ctx, xkeys: true}
 	for i := 0; i < ctx.Pick(60, 600); i++ {
 		xg.one(16 + i%3)
 	}
